@@ -208,9 +208,14 @@ func (e *TOCEntry) addChild(baseName string, child *TOCEntry) {
 	if e.children == nil {
 		e.children = make(map[string]*TOCEntry)
 	}
-	if child.Type == "dir" {
-		e.NumLink++ // Entry ".." in the subdirectory links to this directory
+	if old, ok := e.children[baseName]; !ok || old.Type != "dir" {
+		if child.Type == "dir" {
+			e.NumLink++ // Entry ".." in the subdirectory links to this directory
+		}
+	} else if child.Type != "dir" {
+		e.NumLink-- // The subdirectory registered under this name is replaced
 	}
+	// NOTE: a directory listed more than once in the TOC is counted once.
 	e.children[baseName] = child
 }
 
